@@ -509,6 +509,21 @@ def unroll_literal_loops(func, max_items=12):
                 for h in st.handlers:
                     h.body = rewrite(h.body)
             its = items_of(st) if isinstance(st, ast.For) else None
+            if its is not None and len(st.body) >= 2 and isinstance(st.body[0], ast.If) and \
+                    len(st.body[0].body) == 1 and isinstance(st.body[0].body[0], ast.Continue) \
+                    and not st.body[0].orelse and not any(
+                        isinstance(x, (ast.Break, ast.Continue))
+                        for b in st.body[1:] for x in ast.walk(b)):
+                # guard clause `if C: continue` == `if not C: <rest>`
+                t = st.body[0].test
+                if isinstance(t, ast.Compare) and len(t.ops) == 1 and isinstance(
+                        t.ops[0], (ast.Is, ast.IsNot)):
+                    neg = ast.Compare(left=t.left, ops=[ast.IsNot() if isinstance(
+                        t.ops[0], ast.Is) else ast.Is()], comparators=t.comparators)
+                else:
+                    neg = ast.UnaryOp(op=ast.Not(), operand=t)
+                st.body = [ast.If(test=neg, body=st.body[1:], orelse=[])]
+                ast.fix_missing_locations(st)
             if its is not None and not st.orelse and not any(
                     isinstance(x, (ast.Break, ast.Continue))
                     for b in st.body for x in ast.walk(b)) and not any(
